@@ -35,7 +35,7 @@ Proof.
   intros s m. unfold on_error, decide, retry_enabled, counter, max_retries, labels_get_default, is_true, cfg_of,
     resend_kicker, kicker_with_label, kicker_with_task_id, new_kicker.
   cbn [default_retry_count default_retry_label no_result_on_retry rk_name rk_broker rk_tid rk_labels].
-  rewrite str_true.
+  rewrite ?str_true.
   destruct (dget K_RETRIES (rm_labels m)) as [vr|] eqn:Er; destruct (dget K_MAXR (rm_labels m)) as [vm|] eqn:Em;
     cbn [py_int];
   repeat match goal with
